@@ -285,8 +285,13 @@ CHECKS = {
    note="Also 'agrees with what the simulator then fetches': Util!LoadBytes/ImmAt describe one load-immediate instruction "
         "per CPU (msp430, 6502, z80, avr8) from the architecture manuals; TLC enumerates sessions that write it with write*, "
         "optionally overwrite its immediate with a second write of another width, then set pc / step / registers, and "
-        "Util!FetchOk requires the register to hold the immediate that is in the model's memory. Interactive assembly, "
-        "symbol-name ranges and -set_pc are not modelled; disasm ranges and -address are exercised by C08's range half.",
+        "Util!FetchOk requires the register to hold the immediate that is in the model's memory (the program counter set "
+        "with `set pc` or with -set_pc on the command line; the instruction written with write* or assembled with "
+        "interactive asm). Util!AsmBlock models interactive asm (asm <org> / asm, data items of every width, .org and "
+        ".resb gaps inside a block, the next block continuing behind the last one, nothing else changed); symbol names in "
+        "ranges (Util!ResolveCmd) run against an ELF file that the real naken_asm wrote and the real loader read. disasm "
+        "ranges and -address are exercised by C08's range half; a write* address given as a symbol and the open range "
+        "`a-` are not modelled.",
    technique="TLA+ model of naken_util memory commands; TLC-enumerated sessions replayed into the real naken_util; "
              "TLC trace acceptor over the printed dumps"),
  "C20": dict(
@@ -340,7 +345,7 @@ def main():
             guard="NAKEN_ASM_VERIF",
             enable="checks copy /repo's working tree to /verif/.build/<hash>/<variant>/ and run the repository's own "
                    "make with CFLAGS='-Wall -DREADLINE -O2 -DNAKEN_ASM_VERIF' (variant asan adds -fsanitize=address,bounds,...)",
-            baseline_off_cmd="cd /repo && ./configure && make && make tests",
+            baseline_off_cmd="cd /repo && ./configure && make clean && make && make tests",
             source_commits=HOOK_COMMITS,
             add_only=True),
         engines=[dict(name="nvcheck", path="/verif/check",
